@@ -32,7 +32,10 @@ def build(tier, rng, ms):
     cfgs = [("tcp", None), ("tcp", ([], [])), ("tcp", (["StreamWorkflowReplicationMessages"], [])), ("tcp", (["DescribeCluster", "AddOrUpdateRemoteCluster"], [])),
             ("mux", None), ("mux", ([], [])), ("mux", ([rng.choice(admin)], []))]
     singles = admin if tier == "thorough" else [rng.choice(admin) for _ in range(4)]
-    for s in singles:
+    # always: singleton lists of every method whose name is a proper prefix, suffix or substring of another admin method's
+    # name (the match has to be exact), from the descriptors
+    related = sorted(a for a in admin if any(a != b and a in b for b in admin))
+    for s in singles + [a for a in related if a not in singles]:
         cfgs.append(("tcp", ([s], [])))
     for _ in range(2 if tier == "quick" else 12):
         cfgs.append(("tcp", ([rng.choice(admin), rng.choice(admin)], [])))
